@@ -5,7 +5,7 @@
     references to them, so that sharing (aliasing) is explicit.  [Keeps w w']: every list cell,
     every function object, every class, every module binding and every registration of [w] is found
     unchanged in [w'] - hence every contract list and every verdict derived from them. *)
-From ICV Require Import Base Bind Checker Elab ElabFrame ElabClassFrame.
+From ICV Require Import Base Bind Checker Elab ElabFrame ElabClassFrame ElabOwnLists.
 Open Scope string_scope.
 Open Scope list_scope.
 
@@ -44,6 +44,18 @@ Proof. exact (define_class_frame_no_bases w d w'). Qed.
 Theorem C17_class_statement_frame_no_decorators w d w' :
   define_class w d = Ok w' -> forallb (fun i => negb (id_enabled i)) (cd_invs d) = true -> KeepsC w w'.
 Proof. exact (define_class_frame_no_decorators w d w'). Qed.
+
+(** ... and for every class created through the meta-class (DBC / DBCMeta named, or a base that was) in every world
+    that a history of definitions - functions, classes, later decorations of members - can reach, with no
+    hypothesis left: [OwnLists] follows from an invariant of reachable worlds (the three invariant lists of a class exist
+    together or not at all; a class stands first in its resolution order; resolution orders name existing classes:
+    [WF], kept by every definition) and from C3 merging nothing but the bases and their orders
+    (Proofs/ElabOwnLists.v). *)
+Theorem C17_class_statement_frame_reachable ops d w' :
+  let w := fst (run_defs empty_world ops) in
+  is_meta w d = true -> define_class w d = Ok w' -> KeepsC w w'.
+Proof. exact (define_class_frame_reachable ops d w'). Qed.
+Print Assumptions C17_class_statement_frame_reachable.
 
 (** Non-vacuity: decorating a second function leaves the first one's checker lists untouched. *)
 Definition c (n : Z) : contract := {| cid := n; cargs := []; cmandatory := []; ckind_ := CKPlain; cerror := ENone; clambda := false |}.
